@@ -4,3 +4,4 @@ import Model.Scan
 import Model.Ledger
 import Model.Calendar
 import Model.Sched
+import Model.Report
